@@ -73,9 +73,19 @@ pub fn check_tokens(front: &str, text: &str, src: &[char], toks: &[Token], plain
                         let w: Vec<&str> = low.split_whitespace().collect();
                         w == ["et", "al."]
                     };
-                    let class = if is_et_al { "c02-et-al" } else { "word-has-whitespace" };
+                    // recorded finding (w25): under IsolateEnglish a dropped chunk leaves `X.` and `Y.` adjacent in
+                    // the token list; condense_dotted_initialisms merges them into one Word over the gap
+                    let n = txt.len();
+                    let is_iso_gap = front.contains("+isolate")
+                        && n >= 5
+                        && txt[0].is_alphabetic()
+                        && txt[1] == '.'
+                        && txt[n - 1] == '.'
+                        && txt[n - 2].is_alphabetic()
+                        && !txt[n - 3].is_alphanumeric();
+                    let class = if is_et_al { "c02-et-al" } else if is_iso_gap { "c02-isolate-initialism-gap" } else { "word-has-whitespace" };
                     out.fails.push((class.into(), format!("Word token {:?} contains whitespace", txt.iter().collect::<String>()), inp()));
-                    if !is_et_al {
+                    if !is_et_al && !is_iso_gap {
                         return;
                     }
                 }
@@ -108,6 +118,13 @@ pub fn check_tokens(front: &str, text: &str, src: &[char], toks: &[Token], plain
                 }
             }
             TokenKind::Punctuation(Punctuation::Quote(q)) => {
+                // w25: "a punctuation token is that punctuation mark" holds for quote tokens too:
+                // the text under a quote token is one character and that character is a quotation mark
+                // (any Unicode quotation mark is accepted; the lexer makes quote tokens of `"` `“` `”`)
+                if !(txt.len() == 1 && matches!(txt[0], '"' | '“' | '”' | '„' | '‟' | '«' | '»' | '＂' | '\'' | '‘' | '’' | '‚' | '‛' | '‹' | '›' | '＇' | '「' | '」' | '『' | '』' | '〝' | '〞' | '〟')) {
+                    out.fails.push(("quote-shape".into(), format!("Quote token over {:?}", txt.iter().collect::<String>()), inp()));
+                    return;
+                }
                 if let Some(tw) = q.twin_loc {
                     let ok = tw < toks.len()
                         && tw != i
@@ -256,6 +273,7 @@ pub fn eval_plain(text: &str) -> Out {
             }
             out.k.push((dop, dimp));
             doc_counts(&src, toks, &mut out);
+            check_source("plaintext", text, doc.get_source(), &mut out);
             check_tokens("plaintext", text, doc.get_source(), toks, true, &mut out);
         }
         Err(_) => {
@@ -279,6 +297,7 @@ pub fn eval_front(id: &str, ilt: bool, wrap: Wrap, text: &str) -> Out {
     match guarded(|| Document::new(text, &parser, &dict)) {
         Ok(doc) => {
             out.counts.push(format!("front:{}", id));
+            check_source(&name, text, doc.get_source(), &mut out);
             check_tokens(&name, text, doc.get_source(), doc.get_tokens(), false, &mut out);
         }
         Err(_) => out.counts.push("front-panicked(C01's business)".into()),
@@ -453,6 +472,8 @@ pub fn run(ctx: &Ctx) {
         let front = v["frontend"].as_str().unwrap_or("plaintext").to_string();
         let o = if let Some(sl) = v["ext_slice"].as_str() {
             eval_ext_slice(sl)
+        } else if let Some(o) = w25_replay(&front, &text) {
+            o
         } else if let Some(o) = crate::c02md::replay(&front, &text) {
             o
         } else if let Some(o) = crate::c02typst::replay(&front, &text) {
@@ -663,9 +684,782 @@ pub fn run(ctx: &Ctx) {
     crate::c02md::run_into(&mut sess, ctx, &mut rng);
     // --- K: the Typst translator's own logic and the HTML Space clamp (c02typst.rs) --------
     crate::c02typst::run_into(&mut sess, ctx, &mut rng);
+    // --- w25: call sites, configurations and text families no stream above goes through -------
+    w25_streams(&mut sess, ctx, &mut rng);
     sess.finish(
-        "K: PlainEnglish::parse vs the Lean lexer model, every text twice: op `lex` (url/e-mail/hostname tokens handed to the model as a table) and op `lexfull` (those three lexers computed by the model, nothing handed over), and Document::new(text, &PlainEnglish, dict).get_tokens() vs the Lean model of Document::parse (every text twice: op `doc` — all condensing passes, quote twins, number suffixes, the real lexers' url / e-mail / hostname tokens handed over as a table — and op `docfull` — the same pipeline with those three lexers computed by the model, nothing handed over: the definition `documentFull` of the theorems), on (1) corpus of lexer corner cases incl. curated url / e-mail / hostname corner cases alone and embedded, (2) ALL strings of length ≤4 (quick) / ≤5 (thorough) over the alphabet {a,1,.,',space,tab,newline,s,0,x,[,],-,e} and over the alphabet {a,1,.,-,@,:,/,%,\",space,+,_,A,é}, and ALL sequences of ≤4 / ≤5 pieces from {a,b,.,',space,tab,newline,et,al,etc,Vs,1,st,\",nD,I}, (3) structured random texts (rule-test sentences mutated by truncation, spice splices, delimiter drops, long words, glued digits), random code points, and random url / address / host look-alikes; op `extlex`: lex_url / lex_email_address / lex_hostname_token / lex_hostname compiled from /repo and called directly on arbitrary slices (suffixes of the curated cases, ALL strings of length ≤4/5 over the second alphabet, random look-alikes), result lengths against the model and against 1 ≤ n ≤ slice length. O: the property's clauses (bounds, order, disjointness, zero-width only structural, plain tiling, per-kind shape, quote twins) on the final Document tokens of plain English and of every language id of the server's table (prose embedded in language-appropriate syntax, plus the repo's fixtures), also wrapped in CollapseIdentifiers / IsolateEnglish. K (c02md.rs): op `mdparse` / `wikiclean` — pulldown-cmark's real events (variant, byte range, text length; same Options as markdown.rs) + the text → the Lean model of Markdown::parse (event loop, traversed_bytes/chars, tag stack, inner PlainEnglish parse computed by the model, trailing-break pop, remove_hidden_wikilink_tokens, remove_wikilink_brackets) vs the real Markdown::new(opts).parse, both ignore_link_title settings: corpus (the parser's tests, wikilink witnesses, repo fixtures), ALL concatenations of ≤4 (quick) / ≤5 (thorough) of 16 markup pieces {a, space, newline, *, `, [, ], (x), #, `- `, é, |, `> `, <b>, $, backslash} (option off; ≤3/≤4 with the option on), ALL concatenations of ≤6 of {[[, ]], |, a, space, backslash, [b](x)} (option off; ≤5/≤6 with the option on), random generated Markdown files / markup soup / wikilink soup with multi-byte text; the hypotheses of the Markdown theorems (EventsOK) are monitors on every event list. Ops `collapse`, `isolate`, `isolatev` — the real CollapseIdentifiers / IsolateEnglish over PlainEnglish and Markdown vs the model, the inner tokens and the dictionary's answers (resp. the real is_likely_english verdict per chunk) handed over: ALL concatenations of ≤5/≤6 of 9 identifier pieces, all chunks of ≤9 known/unknown words × 3 tails, random identifier and mixed-language texts. K (c02typst.rs): op `typst` — the real typst_syntax::Source of every Typst text serialised by calling exactly the accessors typst_translator.rs calls (per Expr / Pattern / Arg / Param / ArrayItem / DictItem / DestructuringItem variant: the match arm, the byte range doc.range(span) gives or `-` for a detached node, the node text where the translator reads it, the accessor results as subtrees) + the text → the Lean model of harper_typst::Typst.parse (convert_parbreaks, parse_expr / parse_pattern arm by arm, def_token! / merge! / get_text!, OffsetCursor, inner PlainEnglish parse computed by the model) vs the real parser; op `typok` — the harness's Rust mirror of TreeOK / NoAlias / InOrder vs the model's own definitions; monitors on every real tree: TreeOK, in-bounds-when-TreeOK, sorted-when-InOrder: corpus (the repo's Typst fixtures, the recorded findings' witnesses), ALL concatenations of ≤4 (quick) / ≤5 (thorough) of the 20 pieces {`#let `, x, ` = `, (, ), [, ], *a*, _b_, `= H`, newline, `- i`, $x$, \"s\", #f, `: `, `, `, .., space, é}, every prefix of four realistic documents and (every 7th / every) prefix of the fixtures, random Typst markup / code soup / spliced documents. Ops `htmlclamp` / `htmlclampt` — the Space clamp of HtmlParser::parse on the tokens of the inner Mask parse (random HTML with runs of blanks and tabs). Op `htmlparse` — the whole HtmlParser::parse: text + the mask the real TreeSitterMasker computes → the model's maskParse with its own PlainEnglish + clamp vs the real parser (HTML fixtures and corner cases, ALL concatenations of ≤4/≤5 of 11 HTML pieces, random HTML); `typok` carries a fourth field RangesSolid and is also run on synthetic trees (one range of a real tree emptied). Non-trivial = a plain text whose tokens have ≥3 distinct kinds; distinct by op line.",
+        "K: PlainEnglish::parse vs the Lean lexer model, every text twice: op `lex` (url/e-mail/hostname tokens handed to the model as a table) and op `lexfull` (those three lexers computed by the model, nothing handed over), and Document::new(text, &PlainEnglish, dict).get_tokens() vs the Lean model of Document::parse (every text twice: op `doc` — all condensing passes, quote twins, number suffixes, the real lexers' url / e-mail / hostname tokens handed over as a table — and op `docfull` — the same pipeline with those three lexers computed by the model, nothing handed over: the definition `documentFull` of the theorems), on (1) corpus of lexer corner cases incl. curated url / e-mail / hostname corner cases alone and embedded, (2) ALL strings of length ≤4 (quick) / ≤5 (thorough) over the alphabet {a,1,.,',space,tab,newline,s,0,x,[,],-,e} and over the alphabet {a,1,.,-,@,:,/,%,\",space,+,_,A,é}, and ALL sequences of ≤4 / ≤5 pieces from {a,b,.,',space,tab,newline,et,al,etc,Vs,1,st,\",nD,I}, (3) structured random texts (rule-test sentences mutated by truncation, spice splices, delimiter drops, long words, glued digits), random code points, and random url / address / host look-alikes; op `extlex`: lex_url / lex_email_address / lex_hostname_token / lex_hostname compiled from /repo and called directly on arbitrary slices (suffixes of the curated cases, ALL strings of length ≤4/5 over the second alphabet, random look-alikes), result lengths against the model and against 1 ≤ n ≤ slice length. O: the property's clauses (bounds, order, disjointness, zero-width only structural, plain tiling, per-kind shape, quote twins) on the final Document tokens of plain English and of every language id of the server's table (prose embedded in language-appropriate syntax, plus the repo's fixtures), also wrapped in CollapseIdentifiers / IsolateEnglish. K (c02md.rs): op `mdparse` / `wikiclean` — pulldown-cmark's real events (variant, byte range, text length; same Options as markdown.rs) + the text → the Lean model of Markdown::parse (event loop, traversed_bytes/chars, tag stack, inner PlainEnglish parse computed by the model, trailing-break pop, remove_hidden_wikilink_tokens, remove_wikilink_brackets) vs the real Markdown::new(opts).parse, both ignore_link_title settings: corpus (the parser's tests, wikilink witnesses, repo fixtures), ALL concatenations of ≤4 (quick) / ≤5 (thorough) of 16 markup pieces {a, space, newline, *, `, [, ], (x), #, `- `, é, |, `> `, <b>, $, backslash} (option off; ≤3/≤4 with the option on), ALL concatenations of ≤6 of {[[, ]], |, a, space, backslash, [b](x)} (option off; ≤5/≤6 with the option on), random generated Markdown files / markup soup / wikilink soup with multi-byte text; the hypotheses of the Markdown theorems (EventsOK) are monitors on every event list. Ops `collapse`, `isolate`, `isolatev` — the real CollapseIdentifiers / IsolateEnglish over PlainEnglish and Markdown vs the model, the inner tokens and the dictionary's answers (resp. the real is_likely_english verdict per chunk) handed over: ALL concatenations of ≤5/≤6 of 9 identifier pieces, all chunks of ≤9 known/unknown words × 3 tails, random identifier and mixed-language texts. K (c02typst.rs): op `typst` — the real typst_syntax::Source of every Typst text serialised by calling exactly the accessors typst_translator.rs calls (per Expr / Pattern / Arg / Param / ArrayItem / DictItem / DestructuringItem variant: the match arm, the byte range doc.range(span) gives or `-` for a detached node, the node text where the translator reads it, the accessor results as subtrees) + the text → the Lean model of harper_typst::Typst.parse (convert_parbreaks, parse_expr / parse_pattern arm by arm, def_token! / merge! / get_text!, OffsetCursor, inner PlainEnglish parse computed by the model) vs the real parser; op `typok` — the harness's Rust mirror of TreeOK / NoAlias / InOrder vs the model's own definitions; monitors on every real tree: TreeOK, in-bounds-when-TreeOK, sorted-when-InOrder: corpus (the repo's Typst fixtures, the recorded findings' witnesses), ALL concatenations of ≤4 (quick) / ≤5 (thorough) of the 20 pieces {`#let `, x, ` = `, (, ), [, ], *a*, _b_, `= H`, newline, `- i`, $x$, \"s\", #f, `: `, `, `, .., space, é}, every prefix of four realistic documents and (every 7th / every) prefix of the fixtures, random Typst markup / code soup / spliced documents. Ops `htmlclamp` / `htmlclampt` — the Space clamp of HtmlParser::parse on the tokens of the inner Mask parse (random HTML with runs of blanks and tabs). Op `htmlparse` — the whole HtmlParser::parse: text + the mask the real TreeSitterMasker computes → the model's maskParse with its own PlainEnglish + clamp vs the real parser (HTML fixtures and corner cases, ALL concatenations of ≤4/≤5 of 11 HTML pieces, random HTML); `typok` carries a fourth field RangesSolid and is also run on synthetic trees (one range of a real tree emptied). W25: O (+ K where the text goes through `eval_plain`) on text families (CRLF / lone CR, whitespace-only, fullwidth, astral, combining, very long words / numbers / documents, one construct repeated many times) in plain English and in every front-end; every `Document` constructor and `Document::default()`; `StrParser::parse_str`; `CommentParser::new_from_filename` per file extension; the server's parser composition of harper-ls `update_document` (file dictionary = curated + user words, identifier dictionary from `create_ident_dict` of the comment / Literate Haskell parser, CollapseIdentifiers over it, IsolateEnglish over that) per language id; every front-end and both wrappers under an empty dictionary, a merged dictionary with user words harvested from the text (identifiers, case variants, apostrophes) and the identifier dictionary; the real `harper-cli parse <file>` executable's token stream per file extension (tokens deserialised, clauses on them against the file's text); `get_source()` = the text on every Document; a quote token's text is a quote character. Non-trivial = a plain text whose tokens have ≥3 distinct kinds; distinct by op line.",
         true,
         json!({"exhaustive_scope": format!("all strings of length ≤{} over each of two 14-character alphabets; all sequences of ≤{} pieces over 16 pieces", maxlen, maxlen), "language_ids": ids}),
     );
+}
+
+// =====================================================================================
+// w25 — audit of oracles / call sites / generator dimensions against the property text.
+// Everything below is oracle-only except the text families, which also go through
+// `eval_plain` (ops `lex` / `lexfull` / `doc` / `docfull` the Lean driver already handles).
+// =====================================================================================
+
+/// clause "every token … lies inside THE TEXT": the Document's source is the text it was given
+pub fn check_source(front: &str, text: &str, src: &[char], out: &mut Out) {
+    if !text.chars().eq(src.iter().copied()) {
+        out.fails.push(("source-differs".into(), format!("Document::get_source() ({} chars) is not the text given ({} chars)", src.len(), text.chars().count()), json!({"frontend": front, "text": text})));
+    }
+}
+
+/// text families the quantifier ("all Unicode strings") names and no generator above writes on purpose
+pub fn w25_family_texts(rng: &mut Rng, thorough: bool) -> Vec<(&'static str, String)> {
+    let mut v: Vec<(&'static str, String)> = vec![];
+    // CRLF and lone CR
+    for s in [
+        "\r", "\r\n", "\r\r", "\n\r", "\r\n\r\n", "a\rb", "a\r\nb", "a\r\n\r\nb", "e.g.\r\n", "See e.g.\r", "1st\r\n2nd\r3rd", "\"a\r\n\" b", "don't\r\nwon't\r", "et\r\nal.", "et al.\r\n",
+        "x \r\n y", "x\t\r\n\ty", "...\r\n...", "a.\r\nb.\r\n", "\r\n \r\n", " \r ", "1.\r\n5", "0x1F\r\n", "http://a.b/c\r\nuser@x.y\r\n",
+    ] {
+        v.push(("crlf", s.to_string()));
+    }
+    // empty and whitespace-only documents (blank kinds the lexer knows and those it does not)
+    for s in ["", " ", "  ", "\t", "\n", " \n", "\n ", " \n ", "\t\n\t", "\n\n", "\n\n\n\n\n", " \t \n \t ", "\u{a0}", "\u{a0} \u{a0}", "\u{2003}", "\u{3000}", " \u{3000} ", "\u{200b}", "\u{2028}", "\u{2029}", "\u{85}", "\u{b}\u{c}", "\u{feff}", "\u{feff} a"] {
+        v.push(("blank-only", s.to_string()));
+    }
+    // fullwidth forms: digits, letters, punctuation, quotes, ideographic space
+    for s in [
+        "１２３", "１st", "1ｓｔ", "１ｓｔ", "ｅ．ｇ．", "e．g．", "ＡＢＣ　ｄｅｆ！", "＂a＂ ｂ", "a＇b", "ｄｏｎ＇ｔ", "０ｘ１Ｆ", "１．５", "ａ＠ｂ．ｃ", "ｈｔｔｐ：／／ａ．ｂ", "（ａ）［ｂ］｛ｃ｝", "ａ…ｂ", "a．．．b", "＄５ ５％", "「引用」『二重』", "。、・", "ﾊﾝｶｸ ｶﾅ",
+    ] {
+        v.push(("fullwidth", s.to_string()));
+        v.push(("fullwidth", format!("See {} now.", s)));
+    }
+    // astral characters (one char, two UTF-16 units, four UTF-8 bytes) next to every construct
+    for s in [
+        "😀", "😀😀", "😀 😀", "a😀b", "😀.", "😀's", "e.g.😀", "😀e.g.", "1st😀", "😀1st", "😀\"q\"😀", "𝒜𝒷𝒸 𝓭𝓮𝓯", "𝟙𝟚st 𝟛rd", "𝟏.𝟓", "👨‍👩‍👧 family", "🇩🇪 flag", "👍🏽 ok", "𐐷𐐯 word", "𠀋 han", "😀...😀", "😀\n\n😀", "😀\t 😀", "et😀al.", "http://a.b/😀 x@😀.y", "0x😀 0x1F😀",
+    ] {
+        v.push(("astral", s.to_string()));
+        v.push(("astral", format!("😀 {} 𝒜", s)));
+    }
+    // combining marks, joiners, bidi controls inside and next to words / numbers / punctuation
+    for s in [
+        "e\u{301}", "e\u{301}.g\u{301}.", "cafe\u{301}'s", "1\u{301}st", "1st\u{301}", "a\u{308}\u{323}b", "\u{301}", "\u{301}a", " \u{301} ", ".\u{301}", "\"\u{301}a\"", "a\u{200d}b", "a\u{200c}b", "a\u{ad}b", "don\u{301}'t", "\u{202e}abc\u{202c}", "क्षि नमस्ते", "ก็ไทย", "한\u{1161}글", "Z\u{351}\u{36b}a\u{350}lgo",
+    ] {
+        v.push(("combining", s.to_string()));
+        v.push(("combining", format!("An {} item.", s)));
+    }
+    // very long words / numbers / documents
+    for n in [257usize, 1000, if thorough { 20000 } else { 3000 }] {
+        v.push(("long", "a".repeat(n)));
+        v.push(("long", format!("{}th", "7".repeat(n.min(1200)))));
+        v.push(("long", format!("0x{}", "f".repeat(n.min(1200)))));
+        v.push(("long", format!("{}.{}", "1".repeat(n.min(600)), "2".repeat(n.min(600)))));
+        v.push(("long", format!("{}'{}", "b".repeat(n / 2), "c".repeat(n / 2))));
+        v.push(("long", " ".repeat(n)));
+        v.push(("long", "\n".repeat(n)));
+        v.push(("long", ".".repeat(n)));
+        v.push(("long", "é😀".repeat(n / 2)));
+        v.push(("long", format!("{}@{}.{}", "u".repeat(n.min(500)), "h".repeat(n.min(500)), "c".repeat(n.min(500)))));
+    }
+    {
+        let mut doc = String::new();
+        let target = if thorough { 40000 } else { 6000 };
+        while doc.len() < target {
+            doc.push_str(&textgen::prose(rng));
+            doc.push_str(*rng.pick::<&str>(&[" ", "\n", "\n\n", "\r\n", " 😀 "]));
+        }
+        v.push(("long", doc));
+    }
+    // one construct many times in one document (every condensing pass with many hits at once)
+    for (piece, seps) in [
+        ("e.g.", &[" ", ", ", "\n"][..]), ("N.S.A.", &[" ", "", "\n\n"]), ("1st", &[" ", ", ", ".", "\n"]), ("22ND", &[" ", "/"]), ("don't", &[" ", "'", "\n"]), ("et al.", &[" ", ", "]), ("etc.", &[" "]), ("vs.", &[" x "]),
+        ("...", &[" ", "a", "\n"]), ("\"q\"", &[" ", "", "\n\n"]), ("“q”", &[" "]), ("'", &[" ", "a"]), (" \t ", &["a", "."]), ("\n\n", &["a", " ", "."]), ("a.", &["", " "]), ("0x1F", &[" ", "st "]), ("1.5", &[" ", "."]), ("x@y.z", &[" ", ","]), ("http://a.b", &[" ", "\n"]), ("a.b", &[" ", "."]), ("1980s", &[" ", "t "]), ("😀", &["", " "]),
+    ] {
+        for sep in seps {
+            for n in [2usize, 3, 7, if thorough { 200 } else { 40 }] {
+                let mut s = String::new();
+                for i in 0..n {
+                    if i > 0 {
+                        s.push_str(sep);
+                    }
+                    s.push_str(piece);
+                }
+                v.push(("repeated", s.clone()));
+                v.push(("repeated", format!("{}{}", s, sep)));
+            }
+        }
+    }
+    // random mixtures of the families' pieces
+    const MIX: &[&str] = &[
+        "\r\n", "\r", "\n", " ", "\t", "\u{a0}", "\u{3000}", "\u{200b}", "😀", "𝒜", "𝟙", "１", "ｓｔ", "st", "nd", "1", "22", "e", ".", "g", "．", "'", "＇", "’", "\"", "＂", "“", "”", "\u{301}", "\u{200d}", "a", "é", "ß", "İ", "et", "al", "etc", "vs", "0x", "F", "@", ":", "/", "-", "_", "…", "...", "!", "？", "％",
+    ];
+    for _ in 0..(if thorough { 20000 } else { 2500 }) {
+        let n = rng.range(1, 12);
+        let mut s = String::new();
+        for _ in 0..n {
+            s.push_str(*rng.pick::<&str>(MIX));
+        }
+        v.push(("mix", s));
+    }
+    v
+}
+
+#[derive(Clone, Copy, PartialEq, Eq, Debug)]
+pub enum DictKind {
+    Empty,
+    UserMerged,
+    Ident,
+}
+
+impl DictKind {
+    fn tag(self) -> &'static str {
+        match self {
+            DictKind::Empty => "empty",
+            DictKind::UserMerged => "user",
+            DictKind::Ident => "ident",
+        }
+    }
+    fn from_tag(s: &str) -> DictKind {
+        match s {
+            "empty" => DictKind::Empty,
+            "ident" => DictKind::Ident,
+            _ => DictKind::UserMerged,
+        }
+    }
+}
+
+/// user words harvested from the text itself: identifiers (`a_b`, `a-b`, `a_b-c`), words with
+/// apostrophes, and case variants of plain words — what a user adds to a personal dictionary
+pub fn harvest_user_words(text: &str) -> Vec<String> {
+    let cs: Vec<char> = text.chars().collect();
+    let mut words: Vec<String> = vec![];
+    let mut i = 0;
+    let is_w = |c: char| c.is_alphanumeric();
+    while i < cs.len() {
+        if is_w(cs[i]) {
+            let mut j = i;
+            // a run of word characters joined by single `_` `-` `'` `’`
+            while j < cs.len() && (is_w(cs[j]) || (matches!(cs[j], '_' | '-' | '\'' | '’') && j + 1 < cs.len() && is_w(cs[j + 1]) && j > i)) {
+                j += 1;
+            }
+            let w: String = cs[i..j].iter().collect();
+            if w.chars().count() <= 40 {
+                if w.contains(['_', '-', '\'', '’']) {
+                    words.push(w.clone());
+                    // the first two parts only (a shorter identifier inside a longer one)
+                    let parts: Vec<&str> = w.split(['_', '-']).collect();
+                    if parts.len() >= 3 {
+                        let sep = w.chars().find(|c| matches!(c, '_' | '-')).unwrap();
+                        words.push(format!("{}{}{}", parts[0], sep, parts[1]));
+                    }
+                } else if words.len() % 5 == 0 {
+                    words.push(w.to_uppercase());
+                    words.push(w.to_lowercase());
+                }
+            }
+            i = j.max(i + 1);
+        } else {
+            i += 1;
+        }
+    }
+    words.sort();
+    words.dedup();
+    words.truncate(64);
+    words
+}
+
+fn w25_dict(kind: DictKind, text: &str) -> std::sync::Arc<dyn harper_core::Dictionary> {
+    use harper_core::{MergedDictionary, MutableDictionary, WordMetadata};
+    use std::sync::Arc;
+    match kind {
+        DictKind::Empty => Arc::new(MutableDictionary::new()),
+        DictKind::Ident => crate::c02md::ident_dict(),
+        DictKind::UserMerged => {
+            let mut user = MutableDictionary::new();
+            for w in harvest_user_words(text) {
+                user.append_word_str(&w, WordMetadata::default());
+            }
+            let mut m = MergedDictionary::new();
+            m.add_dictionary(FstDictionary::curated());
+            m.add_dictionary(Arc::new(user));
+            Arc::new(m)
+        }
+    }
+}
+
+fn is_plain_id(id: &str) -> bool {
+    matches!(id, "mail" | "plaintext" | "text")
+}
+
+/// O: one front-end, optionally wrapped, under a dictionary that is NOT the curated one
+/// (the wrappers ask this dictionary; `Document::parse` reads word metadata from it)
+pub fn eval_front_dict(id: &str, ilt: bool, wrap: Wrap, kind: DictKind, text: &str) -> Out {
+    use harper_core::parsers::{CollapseIdentifiers, IsolateEnglish};
+    let mut out = Out { k: vec![], fails: vec![], counts: vec![], monitors: vec![], nontrivial: None };
+    let Some(p) = frontends::parser_for(id, ilt) else { return out };
+    let dict = w25_dict(kind, text);
+    let parser: Box<dyn Parser> = match wrap {
+        Wrap::None => p,
+        Wrap::Collapse => Box::new(CollapseIdentifiers::new(p, Box::new(dict.clone()))),
+        Wrap::Isolate => Box::new(IsolateEnglish::new(p, dict.clone())),
+    };
+    let name = format!("{}{}{}+dict={}", id, if ilt { "+ilt" } else { "" }, match wrap { Wrap::None => "", Wrap::Collapse => "+collapse", Wrap::Isolate => "+isolate" }, kind.tag());
+    match guarded(|| Document::new(text, &parser, &dict)) {
+        Ok(doc) => {
+            out.counts.push(format!("w25:dict={}{}", kind.tag(), match wrap { Wrap::None => "", Wrap::Collapse => "+collapse", Wrap::Isolate => "+isolate" }));
+            let n_inner = guarded(|| Document::new(text, &frontends::parser_for(id, ilt).unwrap(), &dict)).map(|d| d.get_tokens().len()).unwrap_or(0);
+            if wrap != Wrap::None && doc.get_tokens().len() != n_inner {
+                out.counts.push(format!("w25:dict={}:wrapper-changed-tokens", kind.tag()));
+            }
+            check_source(&name, text, doc.get_source(), &mut out);
+            // plain English (also under identifier collapsing, a condensing step over contiguous tokens) tiles
+            let plain = is_plain_id(id) && wrap != Wrap::Isolate;
+            check_tokens(&name, text, doc.get_source(), doc.get_tokens(), plain, &mut out);
+            w25_md_reclass(&name, text, &mut out);
+        }
+        Err(_) => out.counts.push("front-panicked(C01's business)".into()),
+    }
+    out
+}
+
+/// a file of language `id` with identifiers DECLARED in the code and USED in the prose of the
+/// comments, so that the server's identifier dictionary makes `CollapseIdentifiers` fire
+pub fn embed_with_identifiers(id: &str, prose: &str, style: usize) -> String {
+    const IDS: &[&str] = &["snake_case_name", "my_var", "x_1", "foo_bar_baz", "a_b", "HTTP_server", "é_ü", "r2_d2"];
+    let a = IDS[style % IDS.len()];
+    let b = IDS[(style / 2 + 3) % IDS.len()];
+    let kebab = a.replace('_', "-");
+    // … and the identifier cut at its first separator by markup the Markdown inside comments skips
+    let (a0, a1) = a.split_once('_').unwrap_or((a, "x"));
+    let talk = format!("{} Call {} with {} (not {}), {}'s {}_ _{} {}_{}. See [{}](http://e.x \"the title\")_{} and *{}*_{}.", prose, a, b, kebab, a, a, b, a, b, a0, a1, a0, a1);
+    let decl = match id {
+        "rust" => format!("fn {a}({b}: u8) {{ let {b} = 1; }}\n"),
+        "go" => format!("package main\nfunc {a}({b} int) {{ }}\n"),
+        "python" => format!("def {a}({b}):\n    {b} = 1\n"),
+        "ruby" => format!("def {a}({b})\n  {b} = 1\nend\n"),
+        "lua" => format!("local function {a}({b}) return {b} end\n"),
+        "shellscript" => format!("{a}() {{ {b}=1; }}\n"),
+        "toml" => format!("{a} = 1\n{b} = \"x\"\n"),
+        "nix" => format!("{{ {a} = 1; {b} = 2; }}\n"),
+        "cmake" => format!("set({a} 1)\nfunction({b})\nendfunction()\n"),
+        "haskell" | "lhaskell" | "literate haskell" => format!("{a} :: Int -> Int\n{a} {b} = {b}\n"),
+        "php" => format!("function {a}(${b}) {{ return ${b}; }}\n"),
+        "scala" => format!("def {a}({b}: Int): Int = {b}\n"),
+        "swift" => format!("func {a}({b}: Int) -> Int {{ return {b} }}\n"),
+        "dart" | "c" | "cpp" | "csharp" | "java" => format!("int {a}(int {b}) {{ return {b}; }}\n"),
+        _ => format!("function {a}({b}) {{ const {b}_2 = {b}; return {b}_2; }}\n"),
+    };
+    match id {
+        "lhaskell" | "literate haskell" => {
+            let code: String = decl.lines().map(|l| format!("> {}\n", l)).collect();
+            match style % 2 {
+                0 => format!("{}\n\n{}\n{}\n", talk, code, talk),
+                _ => format!("{}\n\\begin{{code}}\n{}\\end{{code}}\n{}\n", talk, decl, talk),
+            }
+        }
+        "php" => format!("<?php\n{}\n{}", frontends::embed(id, &talk, style).trim_start_matches("<?php\n"), decl),
+        _ => format!("{}\n{}", frontends::embed(id, &talk, style), decl),
+    }
+}
+
+/// O: the parser composition of harper-ls `Backend::update_document`, piece by piece:
+/// dictionary = curated + user words (+ file words); for tree-sitter languages and Literate
+/// Haskell the identifier dictionary `create_ident_dict(source)` is merged in and the parser is
+/// wrapped in `CollapseIdentifiers` over that merged dictionary; with `isolateEnglish` the result
+/// is wrapped in `IsolateEnglish` over the document's dictionary; `Document::new(text, &parser, &dict)`.
+pub fn eval_server_comp(id: &str, ilt: bool, isolate: bool, user: bool, text: &str) -> Out {
+    use harper_comments::CommentParser;
+    use harper_core::parsers::{CollapseIdentifiers, IsolateEnglish};
+    use harper_core::{Dictionary, MergedDictionary, MutableDictionary, WordMetadata};
+    use harper_literate_haskell::LiterateHaskellParser;
+    use std::sync::Arc;
+    let mut out = Out { k: vec![], fails: vec![], counts: vec![], monitors: vec![], nontrivial: None };
+    let name = format!("{}{}{}{}+srv", id, if ilt { "+ilt" } else { "" }, if isolate { "+isolate" } else { "" }, if user { "+user" } else { "" });
+    let o = frontends::md_opts(ilt);
+    let r = guarded(|| {
+        let source: Vec<char> = text.chars().collect();
+        // generate_file_dictionary: curated + user dictionary + file dictionary
+        let mut merged = MergedDictionary::new();
+        merged.add_dictionary(FstDictionary::curated());
+        let mut userd = MutableDictionary::new();
+        if user {
+            for w in harvest_user_words(text) {
+                userd.append_word_str(&w, WordMetadata::default());
+            }
+        }
+        merged.add_dictionary(Arc::new(userd));
+        merged.add_dictionary(Arc::new(MutableDictionary::new()));
+        let ts = CommentParser::new_from_language_id(id, o);
+        let mut ident_words = 0usize;
+        let mut collapse = false;
+        let base: Box<dyn Parser> = if let Some(ts) = ts {
+            if let Some(nd) = ts.create_ident_dict(&Arc::new(source.clone())) {
+                ident_words = nd.word_count();
+                merged.add_dictionary(Arc::new(nd));
+                collapse = true;
+            }
+            Box::new(ts)
+        } else if matches!(id, "literate haskell" | "lhaskell") {
+            let p = LiterateHaskellParser::new_markdown(o);
+            if let Some(nd) = p.create_ident_dict(&Arc::new(source.clone()), o) {
+                ident_words = nd.word_count();
+                merged.add_dictionary(Arc::new(nd));
+                collapse = true;
+            }
+            Box::new(p)
+        } else {
+            frontends::parser_for(id, ilt)?
+        };
+        let dict: Arc<MergedDictionary> = Arc::new(merged);
+        let n_base = base.parse(&source).len();
+        let mut parser: Box<dyn Parser> = if collapse {
+            let d: Arc<dyn Dictionary> = dict.clone();
+            Box::new(CollapseIdentifiers::new(base, Box::new(d)))
+        } else {
+            base
+        };
+        let n_collapsed = parser.parse(&source).len();
+        if isolate {
+            parser = Box::new(IsolateEnglish::new(parser, dict.clone()));
+        }
+        let doc = Document::new(text, &parser, &dict);
+        // the same parser object on a second, different text and on the first again (two documents
+        // open at once share nothing, but the wrappers keep thread-local patterns)
+        let doc_b = Document::new(&format!("{}\n", text.trim_end()), &parser, &dict);
+        let doc_c = Document::new(text, &parser, &dict);
+        Some((doc, doc_b, doc_c, ident_words, n_base, n_collapsed))
+    });
+    match r {
+        Ok(Some((doc, doc_b, doc_c, ident_words, n_base, n_collapsed))) => {
+            out.counts.push(format!("w25:srv:{}", id));
+            out.counts.push(format!("w25:srv:ident-dict-words={}", if ident_words == 0 { "0" } else if ident_words < 5 { "1-4" } else { "5+" }));
+            if n_collapsed < n_base {
+                out.counts.push("w25:srv:collapse-fired".into());
+                out.nontrivial = Some(format!("{}|{}", name, trunc(text, 80)));
+            }
+            if isolate {
+                out.counts.push("w25:srv:isolate".into());
+            }
+            check_source(&name, text, doc.get_source(), &mut out);
+            check_tokens(&name, text, doc.get_source(), doc.get_tokens(), false, &mut out);
+            w25_md_reclass(&name, text, &mut out);
+            if out.fails.is_empty() {
+                let tb: String = format!("{}\n", text.trim_end());
+                check_tokens(&name, &tb, doc_b.get_source(), doc_b.get_tokens(), false, &mut out);
+                w25_md_reclass(&name, &tb, &mut out);
+            }
+            if out.fails.is_empty() {
+                check_tokens(&name, text, doc_c.get_source(), doc_c.get_tokens(), false, &mut out);
+                w25_md_reclass(&name, text, &mut out);
+            }
+        }
+        Ok(None) => {}
+        Err(_) => out.counts.push("front-panicked(C01's business)".into()),
+    }
+    out
+}
+
+/// file extensions of harper-cli `load_file` / `CommentParser::filename_to_filetype`
+pub const W25_EXTS: &[(&str, &str)] = &[
+    ("md", "markdown"), ("lhs", "lhaskell"), ("typ", "typst"), ("py", "python"), ("nix", "nix"), ("rs", "rust"), ("ts", "typescript"), ("tsx", "typescriptreact"), ("js", "javascript"), ("jsx", "javascriptreact"),
+    ("go", "go"), ("c", "c"), ("cpp", "cpp"), ("cmake", "cmake"), ("h", "cpp"), ("rb", "ruby"), ("swift", "swift"), ("cs", "csharp"), ("toml", "toml"), ("lua", "lua"), ("sh", "shellscript"), ("bash", "shellscript"),
+    ("java", "java"), ("hs", "haskell"), ("php", "php"), ("dart", "dart"), ("scala", "scala"), ("sbt", "scala"), ("mill", "scala"),
+];
+
+/// O: every public constructor of `Document`, `Document::default()`, `StrParser::parse_str`
+/// and `CommentParser::new_from_filename`
+pub fn eval_constructors(text: &str, ext_i: usize) -> Out {
+    use harper_core::parsers::{Markdown, MarkdownOptions, StrParser};
+    let mut out = Out { k: vec![], fails: vec![], counts: vec![], monitors: vec![], nontrivial: None };
+    let dict = FstDictionary::curated();
+    let src: Vec<char> = text.chars().collect();
+    let mut one = |name: &str, plain: bool, f: &dyn Fn() -> Document, out: &mut Out| match guarded(f) {
+        Ok(doc) => {
+            out.counts.push("w25:ctor".into());
+            let name = format!("{}+ctor:{}", if plain { "plaintext" } else { "markdown" }, name);
+            check_source(&name, text, doc.get_source(), out);
+            let n0 = out.fails.len();
+            check_tokens(&name, text, doc.get_source(), doc.get_tokens(), plain, out);
+            if out.fails.len() > n0 {
+                let mut sub = Out { k: vec![], fails: out.fails.split_off(n0), counts: vec![], monitors: vec![], nontrivial: None };
+                w25_md_reclass(&name, text, &mut sub);
+                out.fails.extend(sub.fails);
+            }
+            // the iterator and the slice are the same tokens
+            if doc.tokens().count() != doc.get_tokens().len() {
+                out.fails.push(("tokens-iter-differs".into(), "Document::tokens() and get_tokens() differ in length".into(), json!({"frontend": name, "text": text})));
+            }
+        }
+        Err(_) => out.counts.push("front-panicked(C01's business)".into()),
+    };
+    one("new_curated(plain)", true, &|| Document::new_curated(text, &PlainEnglish), &mut out);
+    one("new_plain_english_curated", true, &|| Document::new_plain_english_curated(text), &mut out);
+    one("new_plain_english", true, &|| Document::new_plain_english(text, &dict), &mut out);
+    one("new_from_vec(plain)", true, &|| Document::new_from_vec(std::sync::Arc::new(src.clone()), &PlainEnglish, &dict), &mut out);
+    one("new_markdown_curated", false, &|| Document::new_markdown_curated(text, MarkdownOptions::default()), &mut out);
+    one("new_markdown_curated+ilt", false, &|| Document::new_markdown_curated(text, frontends::md_opts(true)), &mut out);
+    one("new_markdown_default_curated", false, &|| Document::new_markdown_default_curated(text), &mut out);
+    one("new_markdown+ilt", false, &|| Document::new_markdown(text, frontends::md_opts(true), &dict), &mut out);
+    one("new_markdown_default", false, &|| Document::new_markdown_default(text, &dict), &mut out);
+    one("new_curated(Markdown::default)", false, &|| Document::new_curated(text, &Markdown::default()), &mut out);
+    // parse_str: the entry point the Typst translator uses
+    for (name, plain, toks) in [
+        ("parse_str(plain)", true, guarded(|| PlainEnglish.parse_str(text))),
+        ("parse_str(markdown)", false, guarded(|| Markdown::default().parse_str(text))),
+    ] {
+        if let Ok(toks) = toks {
+            out.counts.push("w25:parse_str".into());
+            let n0 = out.fails.len();
+            let name = format!("{}+ctor:{}", if plain { "plaintext" } else { "markdown" }, name);
+            check_tokens(&name, text, &src, &toks, plain, &mut out);
+            if out.fails.len() > n0 {
+                let mut sub = Out { k: vec![], fails: out.fails.split_off(n0), counts: vec![], monitors: vec![], nontrivial: None };
+                w25_md_reclass(&name, text, &mut sub);
+                out.fails.extend(sub.fails);
+            }
+        }
+    }
+    // by file name, as harper-cli does
+    let (ext, id) = W25_EXTS[ext_i % W25_EXTS.len()];
+    if ext_i % W25_EXTS.len() >= 3 {
+        let path = std::path::PathBuf::from(format!("/tmp/some dir/é😀.x/file name.{}", ext));
+        match harper_comments::CommentParser::new_from_filename(&path, MarkdownOptions::default()) {
+            Some(p) => {
+                let file = embed_with_identifiers(id, &text.replace('\t', " "), ext_i);
+                if let Ok(doc) = guarded(|| Document::new(&file, &p, &dict)) {
+                    out.counts.push(format!("w25:by-filename:{}", ext));
+                    let name = format!("{}+byname:{}", id, ext);
+                    check_source(&name, &file, doc.get_source(), &mut out);
+                    check_tokens(&name, &file, doc.get_source(), doc.get_tokens(), false, &mut out);
+                }
+            }
+            None => out.monitors.push((format!("CommentParser::new_from_filename knows .{}", ext), false)),
+        }
+    }
+    out
+}
+
+/// O: `Document::default()`
+fn eval_default_document() -> Out {
+    let mut out = Out { k: vec![], fails: vec![], counts: vec![], monitors: vec![], nontrivial: None };
+    if let Ok(doc) = guarded(Document::default) {
+        out.counts.push("w25:ctor".into());
+        check_source("plaintext+ctor:default", "", doc.get_source(), &mut out);
+        check_tokens("plaintext+ctor:default", "", doc.get_source(), doc.get_tokens(), true, &mut out);
+    }
+    out
+}
+
+/// re-evaluate one recorded input of the w25 streams (the configuration is in the front-end's name)
+/// re-evaluate one recorded input of the w25 streams (the configuration is in the front-end's name)
+pub fn w25_replay(front: &str, text: &str) -> Option<Out> {
+    let wrap_of = |s: &str| if s.contains("+collapse") { Wrap::Collapse } else if s.contains("+isolate") { Wrap::Isolate } else { Wrap::None };
+    let id = front.split('+').next().unwrap_or("");
+    if front.ends_with("+srv") {
+        return Some(eval_server_comp(id, front.contains("+ilt"), front.contains("+isolate"), front.contains("+user"), text));
+    }
+    if let Some((_, kind)) = front.split_once("+dict=") {
+        return Some(eval_front_dict(id, front.contains("+ilt"), wrap_of(front), DictKind::from_tag(kind), text));
+    }
+    if front.contains("+ctor:") {
+        let mut o = eval_constructors(text, 0);
+        merge_out(&mut o, eval_default_document());
+        return Some(o);
+    }
+    if let Some((_, ext)) = front.split_once("+byname:") {
+        // the recorded text is the whole file
+        let mut out = Out { k: vec![], fails: vec![], counts: vec![], monitors: vec![], nontrivial: None };
+        let path = std::path::PathBuf::from(format!("/tmp/x.{}", ext));
+        if let Some(p) = harper_comments::CommentParser::new_from_filename(&path, harper_core::parsers::MarkdownOptions::default()) {
+            if let Ok(doc) = guarded(|| Document::new(text, &p, &FstDictionary::curated())) {
+                check_source(front, text, doc.get_source(), &mut out);
+                check_tokens(front, text, doc.get_source(), doc.get_tokens(), false, &mut out);
+            }
+        }
+        return Some(out);
+    }
+    if let Some((_, ext)) = front.split_once("+cli:") {
+        return Some(match w25_cli_bin() {
+            Some(bin) => eval_cli_parse(&bin, &std::env::temp_dir().join(format!("hv-c02-cli-replay-{}", std::process::id())), 0, ext, text),
+            None => Out { k: vec![], fails: vec![], counts: vec!["w25:cli:not-built(stream skipped)".into()], monitors: vec![], nontrivial: None },
+        });
+    }
+    // a wrapped plain-English front-end of `eval_front` (the branch below would drop the wrapper)
+    if front.starts_with("plaintext+") && (front.contains("+collapse") || front.contains("+isolate")) && !front.contains("(parser)") {
+        return Some(eval_front("plaintext", front.contains("+ilt"), wrap_of(front), text));
+    }
+    None
+}
+
+fn merge_out(a: &mut Out, b: Out) {
+    a.k.extend(b.k);
+    a.fails.extend(b.fails);
+    a.counts.extend(b.counts);
+    a.monitors.extend(b.monitors);
+    if a.nontrivial.is_none() {
+        a.nontrivial = b.nontrivial;
+    }
+}
+
+/// the real `harper-cli` executable, built from the repo into the harness's own target directory
+/// (the same directory c13.rs uses, so the build is shared)
+fn w25_cli_bin() -> Option<std::path::PathBuf> {
+    let target = std::path::PathBuf::from(env!("CARGO_MANIFEST_DIR")).join("target").join("lsbin");
+    let manifest = format!("{}/Cargo.toml", frontends_repo_root());
+    let built = std::process::Command::new("cargo")
+        .args(["build", "--offline", "--locked", "-p", "harper-cli", "--manifest-path", &manifest, "--target-dir"])
+        .arg(&target)
+        .env("CARGO_NET_OFFLINE", "true")
+        .stdout(std::process::Stdio::null())
+        .stderr(std::process::Stdio::null())
+        .status()
+        .map(|s| s.success())
+        .unwrap_or(false);
+    let bin = target.join("debug").join("harper-cli");
+    (built && bin.exists()).then_some(bin)
+}
+
+/// root of the project copy the harness is compiled against (spelled literally, as in c13.rs and
+/// frontends.rs, so that whoever relocates the tree rewrites it in the same way)
+fn frontends_repo_root() -> String {
+    "/repo".to_string()
+}
+
+/// O: `harper-cli parse <file>` — `load_file` picks the parser by extension, `Document::new`
+/// with the curated dictionary, one JSON token per line. The printed tokens are read back
+/// and the property's clauses are evaluated on them against the file's text.
+pub fn eval_cli_parse(bin: &std::path::Path, dir: &std::path::Path, n: usize, ext: &str, file_text: &str) -> Out {
+    let mut out = Out { k: vec![], fails: vec![], counts: vec![], monitors: vec![], nontrivial: None };
+    let _ = std::fs::create_dir_all(dir);
+    let file = dir.join(format!("in put é{}.{}", n, ext));
+    if std::fs::write(&file, file_text).is_err() {
+        return out;
+    }
+    let res = std::process::Command::new(bin)
+        .arg("parse")
+        .arg(&file)
+        .output();
+    let Ok(res) = res else { return out };
+    let name = format!("{}+cli:{}", W25_EXTS.iter().find(|(e, _)| *e == ext).map(|x| x.1).unwrap_or("unknown"), ext);
+    if !res.status.success() {
+        // a panic of the pipeline is C01's business; anything else (unknown extension) is a monitor
+        let err = String::from_utf8_lossy(&res.stderr).to_string();
+        if err.contains("panicked") {
+            out.counts.push("front-panicked(C01's business)".into());
+        } else {
+            out.monitors.push((format!("harper-cli parse accepts .{}", ext), false));
+        }
+        return out;
+    }
+    let mut toks: Vec<Token> = vec![];
+    for line in String::from_utf8_lossy(&res.stdout).lines() {
+        match serde_json::from_str::<Token>(line) {
+            Ok(t) => toks.push(t),
+            Err(_) => {
+                out.monitors.push(("harper-cli parse prints one JSON token per line".into(), false));
+                return out;
+            }
+        }
+    }
+    out.counts.push(format!("w25:cli:{}", ext));
+    if toks.len() >= 3 {
+        out.nontrivial = Some(format!("cli|{}|{}", ext, trunc(file_text, 60)));
+    }
+    let src: Vec<char> = file_text.chars().collect();
+    check_tokens(&name, file_text, &src, &toks, false, &mut out);
+    w25_md_reclass(&name, file_text, &mut out);
+    out
+}
+
+/// The three recorded pulldown-cmark findings (wikilink events, tab expansion under a code block,
+/// empty math) are recognised on the EVENT LIST of the text (c02md.rs:findings_and_monitors /
+/// reclass). `eval_front` and the w25 streams had no such step; for front-ends that hand the
+/// WHOLE text to `Markdown` (id `markdown`, the Markdown constructors, `harper-cli parse x.md`)
+/// the same recognition applies unchanged.
+fn w25_md_reclass(front: &str, text: &str, out: &mut Out) {
+    if !front.starts_with("markdown") || out.fails.iter().all(|f| f.0.starts_with("c02-")) {
+        return;
+    }
+    let Ok(evs) = guarded(|| crate::c02md::events_of(text)) else { return };
+    let mut scratch = Out { k: vec![], fails: vec![], counts: vec![], monitors: vec![], nontrivial: None };
+    let f = crate::c02md::findings_and_monitors(text, front.contains("+ilt"), &evs, &mut scratch);
+    crate::c02md::reclass(&mut out.fails, &f);
+}
+
+/// Markdown inside comments / Literate Haskell / git-commit sees only parts of the text, so the
+/// event-list recognition above is not available there: the random mixtures lose their tabs
+/// (tab expansion under `:`/list markers is the recorded c02-md-synthetic-text)
+fn w25_inner_markdown_id(id: &str) -> bool {
+    !matches!(id, "markdown" | "mail" | "plaintext" | "text" | "html" | "typst")
+}
+
+/// `merge` + a tally of which w25 stream saw failures outside the recorded classes (attribution
+/// when the 20 recorded failures per class were already taken by an earlier stream)
+fn w25_merge(sess: &mut Session, stream: &str, o: Out) {
+    for (class, _, _) in &o.fails {
+        if !class.starts_with("c02-") {
+            sess.count(&format!("w25:failures-seen-by:{}:{}", stream, class));
+        }
+    }
+    merge(sess, o);
+}
+
+pub fn w25_streams(sess: &mut Session, ctx: &Ctx, rng: &mut Rng) {
+    let thorough = ctx.tier == Tier::Thorough;
+    // 1. text families, plain English: K (lex / lexfull / doc / docfull) + O
+    let fam = w25_family_texts(rng, thorough);
+    // (texts of more than 200 characters: O only — the compiled model's lexer is slow on long texts)
+    let outs = par_map(fam.len(), 16, |i| {
+        let mut o = eval_plain(&fam[i].1);
+        if fam[i].1.chars().count() > 200 {
+            o.k.clear();
+        }
+        o
+    });
+    for (i, o) in outs.into_iter().enumerate() {
+        sess.count(&format!("w25:family:{}", fam[i].0));
+        if o.k.is_empty() {
+            sess.count("w25:family:oracle-only(long)");
+        }
+        w25_merge(sess, "family-plain", o);
+    }
+    // 2. the same families through every front-end (O), a rotating sample per id
+    let ids: Vec<String> = frontends::language_ids().into_iter().filter(|id| frontends::parser_for(id, false).is_some()).collect();
+    let mut jobs: Vec<(String, bool, Wrap, String)> = vec![];
+    let short: Vec<&(&'static str, String)> = fam.iter().filter(|f| f.1.chars().count() <= 1500).collect();
+    let per_id = if thorough { 600 } else { 120 };
+    for (n, id) in ids.iter().enumerate() {
+        for j in 0..per_id {
+            let f = short[(n * 7919 + j * 104729 + (ctx.seed as usize) * 31) % short.len()];
+            let body = if f.0 == "mix" && w25_inner_markdown_id(id) { f.1.replace('\t', " ") } else { f.1.clone() };
+            let text = if j % 3 == 0 { body } else { frontends::embed(id, &body, j) };
+            let wrap = match j % 5 { 3 => Wrap::Collapse, 4 => Wrap::Isolate, _ => Wrap::None };
+            jobs.push((id.clone(), j % 2 == 1, wrap, text));
+        }
+    }
+    // corpus: witnesses of the recorded finding c02-isolate-initialism-gap and its neighbours
+    for (id, t) in [
+        ("text", "A. der die das und.B."), ("text", "See A. der Hund und die Katze.B. said so."), ("dart", "/* N.S.A.\n\nN.S.A. */\nfn g() {}\n"), ("rust", "// N.S.A.\n//\n// N.S.A.\nfn g() {}\n"),
+        ("text", "5 der die das und.th"), ("text", "a' der die das und.b"), ("text", ". der die das und.."), ("markdown", "A. der die das und.B."), ("text", "A. the dog and the cat.B."),
+    ] {
+        jobs.push((id.to_string(), false, Wrap::Isolate, t.to_string()));
+    }
+    let outs = par_map(jobs.len(), 16, |i| {
+        let mut o = eval_front(&jobs[i].0, jobs[i].1, jobs[i].2, &jobs[i].3);
+        w25_md_reclass(&format!("{}{}", jobs[i].0, if jobs[i].1 { "+ilt" } else { "" }), &jobs[i].3, &mut o);
+        o
+    });
+    for o in outs {
+        sess.count("w25:family-in-frontend");
+        w25_merge(sess, "family-in-frontend", o);
+    }
+    // 3. dictionaries × front-ends × wrappers (O)
+    let mut jobs: Vec<(String, bool, Wrap, DictKind, String)> = vec![];
+    let per_id = if thorough { 300 } else { 54 };
+    for id in &ids {
+        for j in 0..per_id {
+            let prose = { let p = textgen::prose(rng); if rng.chance(1, 3) { textgen::mutate(rng, &p) } else { p } };
+            let text = if is_plain_id(id) || matches!(id.as_str(), "markdown" | "git-commit" | "gitcommit" | "html" | "typst") {
+                let extra = *rng.pick::<&str>(&["snake_case", "kebab-case", "separated_identifier_token", "a-b_c", "foo__bar", "my_var-2", "O'Neil's", "x-ray", "é_ü", "well-known"]);
+                frontends::embed(id, &format!("{} Use {} and {}_x, {}.", prose, extra, extra, extra.to_uppercase()), j)
+            } else {
+                embed_with_identifiers(id, &prose, j)
+            };
+            let wrap = match j % 3 { 0 => Wrap::Collapse, 1 => Wrap::Isolate, _ => Wrap::None };
+            let kind = match (j / 3) % 3 { 0 => DictKind::UserMerged, 1 => DictKind::Empty, _ => DictKind::Ident };
+            jobs.push((id.clone(), j % 2 == 1, wrap, kind, text));
+        }
+    }
+    // plain English under every dictionary on the lexer corner cases (tiling demanded)
+    for s in textgen::LEXER_CORNERS.iter().chain(textgen::SPICE.iter()) {
+        for kind in [DictKind::UserMerged, DictKind::Empty, DictKind::Ident] {
+            for wrap in [Wrap::None, Wrap::Collapse] {
+                jobs.push(("plaintext".into(), false, wrap, kind, format!("snake_case {} kebab-case a_{}", s, s)));
+            }
+        }
+    }
+    let outs = par_map(jobs.len(), 16, |i| eval_front_dict(&jobs[i].0, jobs[i].1, jobs[i].2, jobs[i].3, &jobs[i].4));
+    for (i, o) in outs.into_iter().enumerate() {
+        if i % 211 == 0 {
+            sess.sample(json!({"frontend": format!("{}+dict={}", jobs[i].0, jobs[i].3.tag()), "text": trunc(&jobs[i].4, 160)}));
+        }
+        w25_merge(sess, "dict", o);
+    }
+    // 4. the server's composition per language id (O)
+    let mut jobs: Vec<(String, bool, bool, bool, String)> = vec![];
+    let per_id = if thorough { 300 } else { 42 };
+    for id in &ids {
+        for j in 0..per_id {
+            let prose = { let p = textgen::prose(rng); if rng.chance(1, 3) { textgen::mutate(rng, &p) } else { p } };
+            let mut text = embed_with_identifiers(id, &prose, j);
+            if rng.chance(1, 5) {
+                text = textgen::mutate(rng, &text);
+            }
+            if j % 7 == 6 {
+                text = text.replace('\n', "\r\n");
+            }
+            jobs.push((id.clone(), j % 2 == 1, j % 3 == 1, j % 4 >= 2, text));
+        }
+    }
+    for (ext, content) in crate::corpus::fixtures() {
+        if let Some((_, id)) = W25_EXTS.iter().find(|(e, _)| e == ext) {
+            jobs.push((id.to_string(), false, false, true, content.clone()));
+            jobs.push((id.to_string(), false, true, false, content.clone()));
+        }
+    }
+    let outs = par_map(jobs.len(), 16, |i| eval_server_comp(&jobs[i].0, jobs[i].1, jobs[i].2, jobs[i].3, &jobs[i].4));
+    for (i, o) in outs.into_iter().enumerate() {
+        if i % 173 == 0 {
+            sess.sample(json!({"frontend": format!("{}+srv", jobs[i].0), "text": trunc(&jobs[i].4, 200)}));
+        }
+        w25_merge(sess, "srv", o);
+    }
+    // 5. every constructor of Document, parse_str, CommentParser::new_from_filename (O)
+    let mut texts: Vec<String> = vec![];
+    for s in textgen::LEXER_CORNERS {
+        texts.push(s.to_string());
+    }
+    for f in fam.iter().filter(|f| f.1.chars().count() <= 400).step_by(if thorough { 1 } else { 9 }) {
+        texts.push(f.1.clone());
+    }
+    for _ in 0..(if thorough { 4000 } else { 500 }) {
+        texts.push(textgen::text(rng));
+    }
+    let outs = par_map(texts.len(), 16, |i| eval_constructors(&texts[i], i));
+    for o in outs {
+        w25_merge(sess, "ctor", o);
+    }
+    merge(sess, eval_default_document());
+    // 6. the real harper-cli executable: `parse <file>` per extension (O)
+    match w25_cli_bin() {
+        None => sess.count("w25:cli:not-built(stream skipped)"),
+        Some(bin) => {
+            sess.count("w25:cli:built");
+            let dir = ctx.out.join("c02-cli");
+            let mut files: Vec<(String, String)> = vec![];
+            let rounds = if thorough { 6 } else { 1 };
+            for r in 0..rounds {
+                for (n, (ext, id)) in W25_EXTS.iter().enumerate() {
+                    // quick tier: Markdown, Literate Haskell, Typst and a quarter of the comment
+                    // languages, rotating with the seed (one start of the executable costs ~2 s of CPU)
+                    if !thorough && n >= 3 && (n + ctx.seed as usize) % 4 != 0 {
+                        continue;
+                    }
+                    let prose = match (n + r) % 4 {
+                        0 => format!("{} See e.g. the 1st “quoted” N.S.A. case… don't 😀 et al. 0x1F", textgen::prose(rng)),
+                        1 => { let p = textgen::prose(rng); textgen::mutate(rng, &p) }
+                        2 => format!("é😀 １ｓｔ e\u{301}.g. \"a\" 'b' 1980s {}", textgen::sentence(rng)),
+                        _ => textgen::prose(rng),
+                    };
+                    let mut text = embed_with_identifiers(id, &prose, n + r);
+                    // every second file with CRLF line ends and an empty first line (a reader that
+                    // normalises line ends shifts every token after the first line end)
+                    if (n + r) % 2 == 1 {
+                        text = format!("\n{}", text).replace('\n', "\r\n");
+                    }
+                    files.push((ext.to_string(), text));
+                }
+            }
+            let outs = par_map(files.len(), 8, |i| eval_cli_parse(&bin, &dir, i, &files[i].0, &files[i].1));
+            for (i, o) in outs.into_iter().enumerate() {
+                if i % 11 == 0 {
+                    sess.sample(json!({"frontend": format!("+cli:{}", files[i].0), "text": trunc(&files[i].1, 160)}));
+                }
+                w25_merge(sess, "cli", o);
+            }
+        }
+    }
 }
